@@ -68,11 +68,11 @@ def align(facts, cfg, note=None):
     ref_fns0 = meta['fns']
     gone = {}
     for p in ref_fns0:
-        if p not in facts.bodies and p.startswith('<'):
+        if p not in facts.bodies and (p.startswith('<') or "'" in p):
             gone.setdefault(_strip_lifetimes(p), p)
     mapping0 = []
     for p in list(facts.bodies):
-        if p not in ref_fns0 and p.startswith('<') and _strip_lifetimes(p) in gone:
+        if p not in ref_fns0 and (p.startswith('<') or "'" in p) and _strip_lifetimes(p) in gone:
             r = gone[_strip_lifetimes(p)]
             if ref_fns0[r]['sig'] == facts.bodies[p]['locals'][:facts.bodies[p]['argc'] + 1]:
                 mapping0.append((p, r))
